@@ -124,10 +124,10 @@ class Encoder:
     """Returns the head (smallest pc) of a control-flow cycle that contains no pre-emption point, or None."""
     n = len(prog.ins)
     color = {}
-    for root in sorted(self.reach[tid]):
+    for root in range(n):
       if root in color or root in pps:
         continue
-      stack = [(root, iter(self.succs(prog, root)))]
+      stack = [(root, iter(self.succs_all(prog, root)))]
       color[root] = 1
       path = [root]
       while stack:
@@ -141,7 +141,7 @@ class Encoder:
           if nx not in color:
             color[nx] = 1
             path.append(nx)
-            stack.append((nx, iter(self.succs(prog, nx))))
+            stack.append((nx, iter(self.succs_all(prog, nx))))
             adv = True
             break
         if not adv:
@@ -821,6 +821,21 @@ class Result:
     self.transitions = 0
 
 
+def assert_bv_only(e, seen=None):
+  """The QF_BV solver must never see Int/Real-sorted terms (it may silently mis-handle them)."""
+  seen = set() if seen is None else seen
+  stack = [e]
+  while stack:
+    x = stack.pop()
+    if x.get_id() in seen:
+      continue
+    seen.add(x.get_id())
+    k = x.sort().kind()
+    if k not in (z3.Z3_BOOL_SORT, z3.Z3_BV_SORT):
+      raise Unsupported(f'non bit-vector term in a BMC query: {x.sort()} {str(x)[:80]}')
+    stack.extend(x.children())
+
+
 def bmc(sysm: System, bad_final=None, bad_any=None, depths=(40, 80, 120, 160), timeout_s=1200, want_trace_of_ok=False):
   """bad_final(enc, st) / bad_any(enc, st): z3 Bool over a state. Returns Result."""
   enc = Encoder(sysm)
@@ -906,7 +921,9 @@ def bmc(sysm: System, bad_final=None, bad_any=None, depths=(40, 80, 120, 160), t
     bads = [z3.And(nobodyK, z3.Not(ah))]
     names = ['deadlock']
     if bad_final is not None:
-      bads.append(z3.And(ah, bad_final(enc, st))); names.append('bad_final')
+      bf = bad_final(enc, st)
+      assert_bv_only(bf)
+      bads.append(z3.And(ah, bf)); names.append('bad_final')
     if any_bad:
       bads.append(z3.Or(*any_bad)); names.append('bad_any')
     running = z3.Not(nobodyK)
@@ -918,14 +935,27 @@ def bmc(sysm: System, bad_final=None, bad_any=None, depths=(40, 80, 120, 160), t
         if r3 == z3.sat:
           res.trace = extract(enc, sysm, m3, states, scheds, choices)
       break
-    if r == z3.sat and not any(z3.is_true(m.eval(b, model_completion=True)) for b in bads):
+    def holds(b):
+      v = z3.simplify(m.eval(b, model_completion=True))
+      if z3.is_true(v):
+        return True
+      if z3.is_false(v):
+        return False
+      sv = z3.Solver(); sv.add(v)
+      return sv.check() == z3.sat
+    if r == z3.sat and __import__('os').environ.get('VF_DEBUG_BMC'):
+      print('DEBUG bads', [(nm, str(z3.simplify(m.eval(b, model_completion=True)))[:200]) for nm, b in zip(names, bads)], 'running', z3.simplify(m.eval(running, model_completion=True)), 'ah', z3.simplify(m.eval(ah, model_completion=True)))
+    if r == z3.sat and not any(holds(b) for b in bads):
       res.verdict = 'bound'; res.depth = K
       res.detail = f'some thread can still run at depth {K}'
+      res.bound_trace = extract(enc, sysm, m, states, scheds, choices)      # diagnostics only
+      res.bound_trace['enabled_at_bound'] = [bool(z3.is_true(m.eval(e_, model_completion=True))) for e_ in enK]
+      res.bound_trace['sched'] = [m.eval(x, model_completion=True).as_long() for x in scheds]
       if time.time() - t0 > timeout_s:
         break
       continue
     if r == z3.sat:
-      which = [nm for nm, b in zip(names, bads) if z3.is_true(m.eval(b, model_completion=True))]
+      which = [nm for nm, b in zip(names, bads) if holds(b)]
       res.verdict = 'deadlock' if which == ['deadlock'] else 'violation'
       res.detail = ','.join(which)
       res.depth = K
